@@ -1,0 +1,6 @@
+// Package verifhook provides instrumentation points for the external verification harness.
+//
+// Without the "verif" build tag every function in this package is an empty, inlineable no-op.
+// With the tag, Yield calls the registered handler, which may block in order to force a
+// particular interleaving, or record the event.
+package verifhook
